@@ -279,7 +279,7 @@ PROPS["C01"] = {
     "required": ["C01.c01_invariant_all_interleavings", "C01.c01_one_owner_per_address", "C01.c01_direct_serves_own_or_free",
                  "C01.c01_worker_serves_own_or_free", "C01.c01_repeat_served_with_held", "C01.c01_reply_addresses_stay_bound",
                  "C01.c01_removed_address_not_offered", "C01.c01_deleting_address_not_offered"],
-    "rule": _PW_RULE + " Exclusivity across a daemon restart (Local.load rebuilding the pool from the stored records): the daemon world of C05 with its restart / crash ops runs inside this check as well (dm.* lines, Model/Daemon.lean); its monitors double-allocation, restart/binding-lost and restart/two-records-one-address count for C01 (keys C01/daemon/...).",
+    "rule": _PW_RULE + " Exclusivity across a daemon restart (Local.load rebuilding the pool from the stored records): the daemon world of C05 with its restart / crash ops runs inside this check as well (dm.* lines, Model/Daemon.lean), and so does C04's mix of that world (repeated ADDs and DELs without restarts: the request the daemon builds for a repeated ADD pins the pool to the stored address and interface; monitor C04/repeat-add/different-address counts as C01/daemon/repeat-add/different-address); its monitors double-allocation, restart/binding-lost and restart/two-records-one-address count for C01 (keys C01/daemon/...).",
     "technique": "Lean 4: transition system whose steps are the lock regions of eni.Local, invariant proved by induction over all interleavings and cloud answers; refinement check of every real lock region against the model under a randomised lock scheduler",
     "level_text": "Theorems for all interleavings of lock regions and all cloud answers: one entry (one owner) per address; a request is served only with the pod's own entry or a valid unowned one; a repeat request gets the held address; addresses of a reply on its way stay bound to its pod; an address seen removed by sync or marked for unassignment is never offered. Exclusivity over time additionally rests on the per-step monitors of the harness (reply ledger). Granularity is the lock region, not the instruction: partial.",
     "level_note": "Trusted: Lean kernel; the lock-region decomposition (read off the code, validated region by region); fake cloud. Not modelled: trunk/ERDMA/remote resources, Manager's choice among interfaces (any accepting interface is admitted), metrics.",
